@@ -609,7 +609,8 @@ class Program:
 
     # ---- pipeline functions with their private phase helpers written back in ---------------------------------------
     PIPELINE = {"tad.py::StochasticGame.solve", "tad.py::Solver.solve_reachability", "tad.py::Solver.solve_total_rewards",
-                "tad.py::Solver.prune_stochastich_game", "conditionalrewards.py::main", "roberta_generator.py::main"}
+                "tad.py::Solver.prune_stochastich_game", "conditionalrewards.py::main", "roberta_generator.py::main",
+                "reverse_dfs.py::reverse_dfs"}
     # the command-line parameters the properties speak about; any further option is judged at its argparse default
     CLI_DOCUMENTED = {"roberta_generator.py": {"seed", "width", "length", "max_reward", "prob_robot_break", "prob_light_break", "prob_tile_break",
                                                "prob_loose_tile", "force_down"},
@@ -659,7 +660,7 @@ class Program:
             node.parent = getattr(f.node, "parent", None)
             g = Func(f.mod, f.cls, node)
         try:
-            node3 = _inline_helpers(self, g, public=(f.name == "main" and f.cls is None and not all_options))
+            node3 = _inline_helpers(self, g, public=(f.cls is None and f.name in ("main", "reverse_dfs") and not all_options))
         except Exception:
             node3 = None
         if pro and not (f.name == "main" and f.cls is None):
@@ -911,7 +912,10 @@ def _inline_helpers(prog, f, depth=0, public=False):
         if isinstance(fn, ast.Name) and fn.id.startswith("_") and fn.id in f.mod.funcs and fn.id not in Program.ANCHORS:
             return f.mod.funcs[fn.id]
         if public and isinstance(fn, ast.Name) and fn.id in f.mod.funcs and fn.id not in Program.ANCHORS and fn.id not in REFERENCE_FUNCS:
-            return f.mod.funcs[fn.id]
+            h0 = f.mod.funcs[fn.id]
+            if f.name == "reverse_dfs" and any(isinstance(n, ast.While) for n in ast.walk(h0.node)):
+                return None             # a search of its own (work list): judged as a function, not written into its caller
+            return h0
         return None
 
     def simple(h):
@@ -1012,14 +1016,35 @@ def _inline_helpers(prog, f, depth=0, public=False):
             if isinstance(n, ast.Name) and isinstance(n.ctx, ast.Store):
                 local_names.add(n.id)
 
+        # a parameter that the helper never assigns and that receives a plain name of the caller IS that name inside the helper
+        # (the helper's own locals are renamed, so nothing in its body can rebind a name of the caller)
+        stored_in_h = {n.id for st in body for n in ast.walk(st) if isinstance(n, ast.Name) and isinstance(n.ctx, (ast.Store, ast.Del))}
+        direct = {p_: bound[p_] for p_ in params if isinstance(bound[p_], ast.Name) and p_ not in stored_in_h and bound[p_].id not in (local_names - {p_})}
+
+        # `x = helper(...)` where the helper ends in its one `return <local>`: that local IS x
+        result_as = {}
+        rets = [n for st in body for n in ast.walk(st) if isinstance(n, ast.Return)]
+        if site_kind == "assign" and targets and len(targets) == 1 and isinstance(targets[0], ast.Name) and len(rets) == 1 and body and body[-1] is rets[0] \
+                and isinstance(rets[0].value, ast.Name) and rets[0].value.id in local_names and rets[0].value.id not in params \
+                and targets[0].id not in {d.id for d in direct.values()} \
+                and not any(isinstance(n, ast.Name) and n.id == targets[0].id for a_ in bound.values() for n in ast.walk(a_)):
+            result_as[rets[0].value.id] = targets[0].id
+            body = body[:-1]
+
         class Ren(ast.NodeTransformer):
             def visit_Name(self, n):
+                if n.id in direct and isinstance(n.ctx, ast.Load):
+                    return ast.copy_location(ast.Name(id=direct[n.id].id, ctx=ast.Load()), n)
+                if n.id in result_as:
+                    return ast.copy_location(ast.Name(id=result_as[n.id], ctx=n.ctx), n)
                 if n.id in local_names:
                     return ast.copy_location(ast.Name(id=n.id + sfx, ctx=n.ctx), n)
                 return n
         body = [Ren().visit(st) for st in body]
         pre = []
         for p_ in params:
+            if p_ in direct:
+                continue
             a = ast.Assign(targets=[ast.Name(id=p_ + sfx, ctx=ast.Store())], value=bound[p_])
             pre.append(ast.copy_location(a, site))
 
@@ -1031,6 +1056,11 @@ def _inline_helpers(prog, f, depth=0, public=False):
                 return [ast.copy_location(ast.Assign(targets=_copy.deepcopy(targets), value=v), ret)]
             return [ast.copy_location(ast.Return(value=v), ret)]
         body = replace_returns(body, make)
+        if result_as:
+            out = pre + body
+            for st in out:
+                ast.fix_missing_locations(st)
+            return out
         if not _ends_with_return_or_all(body, h) and site_kind != "expr":
             # falling off the end returns None
             body = body + make(ast.copy_location(ast.Return(value=ast.Constant(value=None)), site))
